@@ -1230,6 +1230,34 @@ def no_cli_defaults(ctx, rule, prog, crate, only=None):
     ctx.ok(rule, "no-cli-defaults")
 
 
+def r15_14(ctx, prog, crate):
+    """A value that was not given at run time leaves what the builder configured: config_with_args writes a field of
+    self.bench_options only with a value it builds as `Some(..)` (or through an in-place insert) - never with an Option it got
+    from clap, which is None for an absent flag and would erase the value set by Divan::sample_count & co."""
+    b = prog.body("divan::Divan::config_with_args", crate)
+    if not ctx.anchor("R15.14", "config_with_args", 1 if b else 0, 1):
+        return
+    ctx.saw(b)
+    n = 0
+    for bi, si, st in b.stmts():
+        if st["k"] != "assign" or st["p"]["l"] != 1:
+            continue
+        names = [pr.get("name") for pr in st["p"]["proj"] if pr["k"] == "field"]
+        if len(names) < 2 or names[0] != "bench_options" or b.inlined_from(bi):
+            continue
+        n += 1
+        rv = st["rv"]
+        ok = rv["k"] == "agg" and rv.get("ak") == "adt" and rv.get("variant") == "Some"
+        if not ok and rv["k"] == "use" and rv["o"].get("k") in ("copy", "move") and not rv["o"]["p"]["proj"]:
+            defs = [d for d in b.prov.defs.get(rv["o"]["p"]["l"], []) if d[0] == "S"]
+            alld = b.prov.defs.get(rv["o"]["p"]["l"], [])
+            ok = bool(defs) and len(defs) == len(alld) and all(d[3]["rv"]["k"] == "agg" and d[3]["rv"].get("variant") == "Some" for d in defs)
+        ctx.check(ok, "R15.14", ["config_with_args", names[1], "written-only-with-Some"],
+                  "config_with_args assigns bench_options.%s a value that is not built as Some(..): an absent flag would overwrite "
+                  "the value configured through the Divan builder with None" % names[1], b.where(bi))
+    ctx.anchor("R15.14", "stores to bench_options fields in config_with_args", n, 4)
+
+
 def r15_13(ctx, prog, crate):
     no_cli_defaults(ctx, "R15.13", prog, crate)
 
@@ -1244,6 +1272,7 @@ def r15_11(ctx, prog, crate):
 
 
 def run(ctx, prog, crate):
+    r15_14(ctx, prog, crate)
     r15_13(ctx, prog, crate)
     r15_12(ctx, prog, crate)
     r15_11(ctx, prog, crate)
